@@ -359,20 +359,27 @@ class CallbacksRegistry:
             callback._iscoro for executor in self._registry.values() for callback in executor
         )
 
-    def call(self, key: str, *args, **kwargs):
+    # In the four methods below ``self`` and ``key`` are taken positionally, so that an event
+    # may carry a keyword argument named ``key`` (``kwargs`` are the event's keyword arguments).
+
+    def call(*args, **kwargs):
+        self, key, *args = args
         if key not in self._registry:
             return []
         return self._registry[key].call(*args, **kwargs)
 
-    def async_call(self, key: str, *args, **kwargs):
+    def async_call(*args, **kwargs):
+        self, key, *args = args
         return self._registry[key].async_call(*args, **kwargs)
 
-    def all(self, key: str, *args, **kwargs):
+    def all(*args, **kwargs):
+        self, key, *args = args
         if key not in self._registry:
             return True
         return self._registry[key].all(*args, **kwargs)
 
-    def async_all(self, key: str, *args, **kwargs):
+    def async_all(*args, **kwargs):
+        self, key, *args = args
         return self._registry[key].async_all(*args, **kwargs)
 
     def str(self, key: str) -> str:
